@@ -20,19 +20,4 @@ theorem inlineEmptyTag_eq : Gen.inlineEmptyTag = 0xC0 := by decide
 theorem heapTag_eq : Gen.heapTag = Gen.heapMarker <<< 56 := by decide
 theorem staticTag_eq : Gen.staticTag = Gen.staticMarker <<< 56 := by decide
 
-/-- the comparison operators the model hard-codes are the ones in the source -/
-theorem guards_eq :
-    Gen.guardFromStr = "<=" ∧ Gen.guardFromStaticStr = "<=" ∧ Gen.guardWithCapacity = "<=" ∧
-    Gen.guardReserveStatic = "<=" ∧ Gen.guardReserveInline = ">" ∧ Gen.guardReserveUnique = ">=" ∧
-    Gen.guardShrinkInline = "<=" ∧ Gen.guardShrinkNoop = ">=" ∧ Gen.guardInlineSetLen = "<" ∧
-    Gen.guardTextLenNew = ">" ∧ Gen.guardCapacityNew = ">" ∧ Gen.guardStaticNew = ">" :=
-  ⟨rfl, rfl, rfl, rfl, rfl, rfl, rfl, rfl, rfl, rfl, rfl, rfl⟩
-
-/-- growth is computed from (len, additional) at the one in-place site, and every copy-out
-site passes the caller's `additional` unchanged -/
-theorem growth_sites :
-    Gen.growthCallArgs = ["len, additional"] ∧
-    Gen.withAdditionalCallArgs = ["str, additional", "self.as_str(), additional", "self.as_str(), additional"] :=
-  ⟨rfl, rfl⟩
-
 end LS.Tie
